@@ -523,7 +523,7 @@ class Interp:
                     if b == is_and:
                         res += go(i + 1, s3)
                     else:
-                        res.append(("val", v if not is_sym(v) else (not is_and), s3))
+                        res.append(("val", v, s3))  # the deciding operand itself is the value
             return res
 
         return go(0, st)
